@@ -409,6 +409,28 @@ def run(prog: Program) -> Results:
                 verdict = True
             elif (breaks_first and incs) or alt:
                 verdict, why = False, f"the remainder `{norm(r_val)}` is not `{src}[{d_name}:]` or the counter has other definitions"
+        # idiom 3: the depth is the position of the first character that is not `@` (the whole length when there is none)
+        if verdict is None and d_name:
+            dd3 = defs_of(d_name)
+            dv3 = dd3[0].value if len(dd3) == 1 and isinstance(dd3[0], ast.Assign) else None
+            if isinstance(dv3, ast.Call) and isinstance(dv3.func, ast.Name) and dv3.func.id == "next" and len(dv3.args) == 2 \
+                    and isinstance(dv3.args[0], ast.GeneratorExp):
+                g3 = dv3.args[0].generators[0]
+                first_other = (isinstance(g3.iter, ast.Call) and isinstance(g3.iter.func, ast.Name) and g3.iter.func.id == "enumerate"
+                               and len(g3.iter.args) == 1 and norm(g3.iter.args[0]) == src and isinstance(g3.target, ast.Tuple) and len(g3.target.elts) == 2
+                               and norm(dv3.args[0].elt) == norm(g3.target.elts[0]) and len(g3.ifs) == 1
+                               and norm(g3.ifs[0]) in (f"{norm(g3.target.elts[1])} != '@'", f"not {norm(g3.target.elts[1])} == '@'"))
+                if first_other:
+                    from sa.util import Aliases as _Al3
+                    rem3 = norm(r_val.value) if isinstance(r_val, ast.NamedExpr) else _Al3(sp.node).norm(r_val)
+                    # the remainder may be bound by a walrus inside the emptiness test
+                    wal = [w for w in ast.walk(sp.node) if isinstance(w, ast.NamedExpr) and norm(w.target) == norm(r_expr)]
+                    if wal:
+                        rem3 = norm(wal[0].value)
+                    if norm(dv3.args[1]) == f"len({src})" and rem3 == f"{src}[{d_name}:]":
+                        verdict = True
+                    else:
+                        verdict, why = False, f"the default `{norm(dv3.args[1])}` / remainder `{rem3}` do not describe the leading `@` run"
         # idiom 2: the depth is the length difference to the stripped text; the remainder is the stripped text or the slice by
         # the depth (any mix of the two spellings, locals looked through)
         if verdict is None:
